@@ -85,7 +85,8 @@ func (g *Gen) intLocs() []loc {
 		ls = append(ls, loc{"J.a", false}, loc{"J.o.n", false}, loc{"J.arr[1]", false}, loc{"J.a", false})
 	}
 	if g.dynArr {
-		ls = append(ls, loc{"F.Arr[F.I]", true}, loc{"F.Arr[F.I]", true})
+		// (F.Arr[1 - F.I] is never the element F.Arr[F.I] denotes at the same time, and both are reset when F.I is assigned)
+		ls = append(ls, loc{"F.Arr[F.I]", true}, loc{"F.Arr[F.I]", true}, loc{"F.Arr[1-F.I]", true})
 	} else {
 		ls = append(ls, loc{"F.Arr[0]", true}, loc{"F.Arr[1]", true})
 	}
@@ -95,6 +96,9 @@ func (g *Gen) intLocs() []loc {
 func (g *Gen) locPath(l loc) *Path {
 	if l.path == "F.Arr[F.I]" {
 		return P("F.Arr").With(Step{Sel: P("F.I"), SelT: "i"})
+	}
+	if l.path == "F.Arr[1-F.I]" {
+		return P("F.Arr").With(Step{Sel: &Bin{Op: "-", L: CI(1), R: P("F.I")}, SelT: "i"})
 	}
 	return P(l.path)
 }
